@@ -96,10 +96,10 @@ def detect(sdir, tier, props):
     return 0 if all(r["rc"] == 1 and any(l.startswith("VIOLATION") for l in r["lines"]) for r in results.values()) else 1
 
 
-def import_seed(pid, n):
-    """copy /tmp/seed/out/<pid>/{mut<n>.diff,demo<n>.py,note<n>.txt} to seeded/<pid>-<n>/ after confirming it"""
-    src = f"/tmp/seed/out/{pid}"
-    dst = os.path.join(ROOT, "seeded", f"{pid}-{n}")
+def import_seed(pid, n, src_root="/tmp/seed/out", dest_n=None):
+    """copy <src_root>/<pid>/{mut<n>.diff,demo<n>.py,note<n>.txt} to seeded/<pid>-<dest_n or n>/ after confirming it"""
+    src = f"{src_root}/{pid}"
+    dst = os.path.join(ROOT, "seeded", f"{pid}-{dest_n or n}")
     os.makedirs(dst, exist_ok=True)
     shutil.copy(f"{src}/mut{n}.diff", f"{dst}/patch.diff")
     shutil.copy(f"{src}/demo{n}.py", f"{dst}/demo.py")
@@ -123,7 +123,7 @@ def import_seed(pid, n):
 
 if __name__ == "__main__":
     if sys.argv[1] == "import":
-        sys.exit(import_seed(sys.argv[2], sys.argv[3]))
+        sys.exit(import_seed(sys.argv[2], sys.argv[3], *(sys.argv[4:6])))
     if sys.argv[1] == "confirm":
         sys.exit(confirm(sys.argv[2], sys.argv[3]))
     elif sys.argv[1] == "detect-scratch":
